@@ -548,12 +548,16 @@ def set_modules(sim, cfg):
 
 
 def _cb_additional_forces(reb_sim):
+    if reb_sim.contents.N < 2:
+        return
     ps = reb_sim.contents.particles
     ps[1].ax += 1e-6
     ps[1].ay -= 2e-6
 
 
 def _cb_additional_forces_vel(reb_sim):
+    if reb_sim.contents.N < 2:
+        return
     ps = reb_sim.contents.particles
     ps[1].ax -= 1e-5 * ps[1].vx
     ps[1].ay -= 1e-5 * ps[1].vy
@@ -571,6 +575,8 @@ def _cb_pre(reb_sim):
 
 
 def _cb_post(reb_sim):
+    if reb_sim.contents.N < 3:
+        return
     ps = reb_sim.contents.particles                                              # editing: a tiny drag on particle 2
     ps[2].vx *= (1.0 - 1e-9)
 
@@ -621,6 +627,10 @@ def advance(sim, n):
         sim.integrate(t0 + 0.37 * span, exact_finish_time=0)
         sim.integrate(t0 + 0.71 * span, exact_finish_time=1)
         sim.integrate(t0 + span)
+    elif mode == "outputs":
+        t0 = sim.t
+        for j in range(1, 5):                                        # repeated exact-finish output calls
+            sim.integrate(t0 + span * j / 4.0, exact_finish_time=1)
     elif mode == "integrate_reverse":
         t0 = sim.t
         sim.integrate(t0 + span)
@@ -634,7 +644,7 @@ def advance(sim, n):
 def apply_ops(sim, ops):
     """structural / parameter operations of a history (applied identically to original and restored)"""
     for op in ops:
-        if not (op.startswith("steps:") or op in ("sync", "dt")):
+        if not (op.startswith("steps:") or op in ("sync", "dt", "save", "until_merge")):
             # REBOUND requires a synchronised state before particles / integrators are modified
             # ("Recalculating coordinates but pos/vel were not synchronized before")
             sim.synchronize()
@@ -647,7 +657,7 @@ def apply_ops(sim, ops):
         elif op == "add2":
             sim.add(m=2e-5, x=-4.4, vy=-0.47, vz=0.01, r=0.001)
         elif op == "mass":
-            sim.particles[1].m *= 1.001
+            sim.particles[min(1, sim.N - 1)].m *= 1.001
         elif op == "dt":
             sim.dt *= 0.5
         elif op == "reset":
@@ -656,6 +666,40 @@ def apply_ops(sim, ops):
             sim.synchronize()
         elif op == "addvar":
             sim.add_variation()
+        elif op == "radii":
+            for i in range(sim.N):
+                sim.particles[i].r = 0.004 + 0.001 * i          # radii edited after add
+        elif op == "recalc_flag":
+            # the documented "I have modified the particles" flags
+            if sim.integrator == "whfast":
+                sim.particles[1].vx *= 1.0 + 1e-9
+                sim.ri_whfast.recalculate_coordinates_this_timestep = 1
+            elif sim.integrator == "mercurius":
+                sim.particles[1].m *= 1.001
+                sim.ri_mercurius.recalculate_coordinates_this_timestep = 1
+                sim.ri_mercurius.recalculate_r_crit_this_timestep = 1
+            elif sim.integrator == "janus":
+                sim.particles[1].vx *= 1.0 + 1e-9
+                sim.ri_janus.recalculate_integer_coordinates_this_timestep = 1
+        elif op == "save":
+            import ctypes as _ct                                  # a snapshot written right before (its result is discarded)
+            buf = _ct.c_char_p(); size = _ct.c_size_t()
+            clib = sys.modules["rebound"].clibrebound
+            clib.reb_simulation_save_to_stream(_ct.byref(sim), _ct.byref(buf), _ct.byref(size))
+            clib.reb_simulation_output_free_stream(buf)
+        elif op == "blowup_var":
+            # make the variational particles large enough for reb_simulation_rescale_var to act in the next steps
+            nv = sim.N_var
+            for i in range(sim.N - nv, sim.N):
+                p_ = sim.particles[i]
+                for a_ in ("x", "y", "z", "vx", "vy", "vz"):
+                    setattr(p_, a_, getattr(p_, a_) * 1e120 + 1e105)
+        elif op == "until_merge":
+            n0 = sim.N
+            for _ in range(60):
+                sim.steps(1)
+                if sim.N < n0:
+                    break
         elif op.startswith("switch:"):
             sim.integrator = op.split(":")[1]
             sim.reset_integrator()          # documented way to discard the old integrator's temporary state
@@ -768,3 +812,270 @@ DIMS_COMMON = ["roles:testparticle_type0", "roles:testparticle_type1", "roles:ma
                "geometry:shear_boundary_ghost_boxes", "geometry:nonsquare_rootboxes_face", "geometry:boundary_open", "geometry:boundary_periodic",
                "python:units", "python:hashes_names", "python:display_settings", "scale:allocation_boundary_130", "scale:allocation_boundary_1030",
                "scale:N0", "scale:N1", "path:buffer", "path:file", "path:copy", "path:pickle"]
+
+
+# ============================================================================= pairwise conjunctions
+# Explicit FACTORS of the C05 / C17 generators with finite value sets, pair constraints (combinations the code rejects
+# or that are meaningless, each with its reason), greedy all-pairs covering arrays and the translation of a factor
+# assignment into a replayable configuration.
+from collections import OrderedDict
+
+SAFE_INTEGS = ("whfast_jacobi", "whfast_dh", "whfast_whds", "whfast_corr11", "whfast_lazy", "saba", "eos", "mercurius")
+KU_INTEGS = ("whfast_jacobi", "whfast_dh", "whfast_whds", "whfast_corr11", "whfast_lazy", "saba")
+VAR_INTEGS = {"whfast_jacobi": ("order1", "megno"),      # "WHFast/MEGNO only supports first order", "Test particle variations not supported with WHFast" "ias15": ("order1", "order2", "tpvar", "megno"),
+              "leapfrog": ("order1", "order2", "tpvar", "megno"), "bs": ("order1", "order2", "tpvar"), "eos": ("order1", "order2", "megno")}
+BOX_MODULES = ("box_tree_tree_periodic", "box_linetree_basic_open", "boxdense_direct_merge", "boxdense_tree_hardsphere")
+COLLIDE_MODULES = ("collide_direct_merge", "collide_line_callable") + BOX_MODULES
+TREE_MODULES = ("box_tree_tree_periodic", "box_linetree_basic_open", "boxdense_tree_hardsphere")
+FACTORS = OrderedDict([
+    ("integ", ["whfast_jacobi", "whfast_dh", "whfast_whds", "whfast_corr11", "whfast_lazy", "saba", "eos", "ias15", "mercurius", "trace", "bs", "janus", "leapfrog"]),
+    ("safe", ["na", 0, 1]),
+    ("ku", [0, 1]),
+    ("roles", ["all_active", "tp_type0", "tp_type1_massive", "single_active", "zero_mass_active"]),
+    ("var", ["none", "order1", "order2", "tpvar", "megno"]),
+    ("modules", ["planets", "close", "collide_direct_merge", "collide_line_callable"] + list(BOX_MODULES)),
+    ("dtsign", ["+", "-"]),
+    ("call", ["steps", "integrate", "integrate_eft0", "integrate_split", "integrate_reverse", "outputs"]),
+    ("edit", ["none", "mass", "dt", "recalc_flag", "radii", "sync", "remove_add"]),
+    ("event", ["none", "removal", "sync", "dt_change", "snapshot_write", "rescale", "merge", "rejected", "encounter"]),
+    ("post", ["none", "add", "remove", "mass", "dt", "sync", "switch_reset"]),
+    ("path", ["buffer", "file", "copy", "pickle", "sa_index", "sim_file_snapshot", "bytes_archive"]),
+    ("cb", ["none", "additional_forces", "heartbeat_pre", "post"]),
+    ("save_after", [0, 1, 7]),
+    ("kind", ["one", "twin"]),
+])
+
+# pair constraints: (factor f, factor g, predicate(a, b) -> True when the pair is EXCLUDED, reason)
+PAIR_RULES = [
+    ("integ", "safe", lambda a, b: (a in SAFE_INTEGS) != (b != "na"), "safe_mode exists only for WHFast/SABA/EOS/MERCURIUS"),
+    ("integ", "ku", lambda a, b: b == 1 and a not in KU_INTEGS, "keep_unsynchronized exists only for WHFast/SABA"),
+    ("safe", "ku", lambda a, b: b == 1 and a != 0, "keep_unsynchronized=1 is rejected unless safe_mode=0"),
+    ("integ", "var", lambda a, b: b != "none" and b not in VAR_INTEGS.get(a, ()), "variational particles / MEGNO rejected or unsupported by this integrator"),
+    ("integ", "modules", lambda a, b: b in BOX_MODULES and a not in ("leapfrog", "ias15"), "box systems have no dominant central body (Wisdom-Holman type / hybrid integrators need one)"),
+    ("integ", "modules", lambda a, b: b in ("collide_direct_merge", "collide_line_callable") and a in ("janus", "saba", "eos"), "collisions are not supported / not defined for JANUS, SABA, EOS"),
+    ("integ", "modules", lambda a, b: b == "close" and a not in ("mercurius", "trace", "ias15", "bs"), "the permanent close encounter system is for hybrid / adaptive integrators"),
+    ("integ", "dtsign", lambda a, b: b == "-" and a == "trace", "TRACE does not support dt<0 (F10)"),
+    ("integ", "call", lambda a, b: b == "integrate_reverse" and a == "trace", "TRACE does not support dt<0 (F10)"),
+    ("integ", "event", lambda a, b: b == "rejected" and a not in ("ias15", "bs", "mercurius", "trace"), "only adaptive integrators reject steps"),
+    ("integ", "event", lambda a, b: b == "encounter" and a not in ("mercurius", "trace"), "encounters exist only for hybrid integrators"),
+    ("modules", "event", lambda a, b: b == "merge" and a not in COLLIDE_MODULES, "a merge needs a collision module"),
+    ("modules", "event", lambda a, b: b == "encounter" and a != "close", "the encounter event uses the close system"),
+    ("modules", "event", lambda a, b: b == "rejected" and a in BOX_MODULES, "rejected first steps are exercised on the planetary systems"),
+    ("var", "event", lambda a, b: b == "rescale" and a not in ("order1", "order2", "megno"), "a rescale event needs variational particles"),
+    ("modules", "roles", lambda a, b: a in BOX_MODULES and b != "all_active", "test-particle roles need a central body"),
+    ("modules", "var", lambda a, b: a in BOX_MODULES and b != "none", "variational equations are not implemented for tree gravity / box systems"),
+    ("modules", "var", lambda a, b: a in ("collide_direct_merge", "collide_line_callable") and b != "none", "merging a particle that has variational partners is not defined"),
+    ("roles", "var", lambda a, b: a != "all_active" and b in ("order2", "megno"), "second order / MEGNO variations are set up for the all-active layout"),
+    ("modules", "edit", lambda a, b: a in TREE_MODULES and b == "remove_add", "REBOUND cannot remove a particle in a tree and keep the particles sorted (rejected)"),
+    ("modules", "event", lambda a, b: a in TREE_MODULES and b == "removal", "as above"),
+    ("modules", "post", lambda a, b: a in TREE_MODULES and b == "remove", "as above"),
+    ("edit", "integ", lambda a, b: a == "recalc_flag" and b not in ("whfast_jacobi", "whfast_dh", "whfast_whds", "whfast_corr11", "whfast_lazy", "mercurius", "janus"), "documented recalculation flags exist for WHFast, MERCURIUS, JANUS"),
+    ("kind", "path", lambda a, b: a == "twin" and b in ("sa_index", "sim_file_snapshot", "bytes_archive"), "the two-snapshot archive paths advance the original inside the path: no never-saved twin"),
+    ("modules", "dtsign", lambda a, b: a in COLLIDE_MODULES and b == "-", "line / tree collision searches with dt<0 are another property's matter (C13)"),
+    ("modules", "call", lambda a, b: a in COLLIDE_MODULES and b == "integrate_reverse", "as above"),
+    ("var", "post", lambda a, b: a != "none" and b in ("add", "remove"), "adding / removing real particles while variational particles exist is rejected"),
+    ("var", "edit", lambda a, b: a != "none" and b == "remove_add", "as above"),
+    ("var", "event", lambda a, b: a != "none" and b in ("removal", "merge"), "as above"),
+]
+
+
+def pair_excluded(f, a, g, b):
+    for rf, rg, pred, reason in PAIR_RULES:
+        if (rf, rg) == (f, g) and pred(a, b):
+            return reason
+        if (rf, rg) == (g, f) and pred(b, a):
+            return reason
+    return None
+
+
+def case_valid(case):
+    names = list(case)
+    for i, f in enumerate(names):
+        for g in names[i + 1:]:
+            if pair_excluded(f, case[f], g, case[g]):
+                return False
+    return True
+
+
+def completable(factors, partial):
+    """is there a complete assignment extending `partial` that violates no pair rule?  (exact backtracking search)"""
+    names = [f for f in factors if f not in partial]
+
+    def rec(i, cur):
+        if i == len(names):
+            return True
+        f = names[i]
+        for v in factors[f]:
+            if all(not pair_excluded(f, v, g, cur[g]) for g in cur):
+                cur[f] = v
+                if rec(i + 1, cur):
+                    del cur[f]
+                    return True
+                del cur[f]
+        return False
+    return rec(0, dict(partial))
+
+
+def all_pairs(factors):
+    """(applicable pairs, excluded pairs with reason); a pair that no rule excludes directly but that has no valid
+    completion (e.g. keep_unsynchronized=1 x box system: only WHFast/SABA have the option, box systems exclude them)
+    is excluded as 'implied'"""
+    names = list(factors)
+    tot, exc = set(), {}
+    for i, f in enumerate(names):
+        for g in names[i + 1:]:
+            for a in factors[f]:
+                for b in factors[g]:
+                    r = pair_excluded(f, a, g, b)
+                    if r:
+                        exc[(f, a, g, b)] = r
+                    elif not completable(factors, {f: a, g: b}):
+                        exc[(f, a, g, b)] = "implied: no assignment of the other factors is compatible with both values"
+                    else:
+                        tot.add((f, a, g, b))
+    return tot, exc
+
+
+def case_pairs(case):
+    names = list(case)
+    return {(f, case[f], g, case[g]) for i, f in enumerate(names) for g in names[i + 1:]}
+
+
+def covering_array(factors, rng, ncand=60, maxcases=2000):
+    """greedy all-pairs: repeatedly pick, among `ncand` random valid candidates seeded with an uncovered pair, the one
+    covering most uncovered pairs"""
+    tot, exc = all_pairs(factors)
+    uncovered = set(tot)
+    names = list(factors)
+    cases = []
+    order = sorted(uncovered, key=lambda p: (str(p)))
+    rng.shuffle(order)
+    stuck = 0
+    while uncovered and len(cases) < maxcases and stuck < 50:
+        seedp = next(p for p in order if p in uncovered)
+        best, bestn = None, -1
+        for _ in range(ncand):
+            cand = {}
+            cand[seedp[0]], cand[seedp[2]] = seedp[1], seedp[3]
+            ok = True
+            for f in names:
+                if f in cand:
+                    continue
+                vals = list(factors[f])
+                rng.shuffle(vals)
+                for v in vals:
+                    cand[f] = v
+                    if all(not pair_excluded(f, v, g, cand[g]) for g in cand if g != f):
+                        break
+                else:
+                    ok = False
+                    break
+            if not ok:
+                continue
+            cand = OrderedDict((f, cand[f]) for f in names)
+            n = len(case_pairs(cand) & uncovered)
+            if n > bestn:
+                best, bestn = cand, n
+        if best is None or bestn <= 0:
+            stuck += 1
+            order.remove(seedp); order.append(seedp)
+            if stuck >= 50:
+                break
+            continue
+        stuck = 0
+        cases.append(best)
+        uncovered -= case_pairs(best)
+    return cases, tot, exc, uncovered
+
+
+def factor_cfg(case):
+    """factor assignment -> (cfg, path, k, kind) for Search.one / twin_one"""
+    integ = case["integ"]
+    o = {}
+    name = integ
+    if integ.startswith("whfast"):
+        name = "whfast"
+        o = {"whfast_jacobi": {}, "whfast_dh": {"coordinates": "democraticheliocentric"}, "whfast_whds": {"coordinates": "whds"},
+             "whfast_corr11": {"corrector": 11}, "whfast_lazy": {"kernel": "lazy"}}[integ]
+    if integ == "eos":
+        o = {"phi0": "lf4", "phi1": "lf"}
+    if integ == "janus":
+        o = {"scale_pos": 1e-14, "scale_vel": 3e-15}
+    o = dict(o)
+    if case["safe"] != "na":
+        o["safe_mode"] = case["safe"]
+    if case["ku"] == 1:
+        o["keep_unsynchronized"] = 1
+    cfg = {"integrator": name, "o": o, "save_after": case["save_after"], "factors": dict(case)}
+    mod = case["modules"]
+    cfg.update({"planets": {"system": "planets"}, "close": {"system": "close"},
+                "collide_direct_merge": {"system": "collide", "collision": "direct"},
+                "collide_line_callable": {"system": "collide", "collision": "line", "resolve": "callable"},
+                "box_tree_tree_periodic": {"system": "box", "gravity": "tree", "collision": "tree", "boundary": "periodic"},
+                "box_linetree_basic_open": {"system": "box", "gravity": "basic", "collision": "linetree", "boundary": "open"},
+                "boxdense_direct_merge": {"system": "boxdense", "gravity": "basic", "collision": "direct", "boundary": "periodic"},
+                "boxdense_tree_hardsphere": {"system": "boxdense", "gravity": "none", "collision": "tree", "resolve": "hardsphere", "boundary": "periodic"}}[mod])
+    role = case["roles"]
+    if role == "tp_type0":
+        cfg["testparticles"] = 1
+    elif role == "tp_type1_massive":
+        cfg["testparticles"] = 2
+    elif role in ("single_active", "zero_mass_active"):
+        cfg["roles"] = role
+    v = case["var"]
+    if v == "order1":
+        cfg["variational"] = 1
+    elif v == "order2":
+        cfg["variational"] = 2
+    elif v == "tpvar":
+        cfg["variational"] = 3
+        cfg.setdefault("testparticles", 1)
+    elif v == "megno":
+        cfg["megno"] = 1
+    if case["dtsign"] == "-":
+        cfg["dtneg"] = 1
+    if case["call"] != "steps":
+        cfg["advance"] = case["call"]
+    cb = {"none": [], "additional_forces": ["additional_forces"], "heartbeat_pre": ["heartbeat", "pre"], "post": ["post"]}[case["cb"]]
+    if cb:
+        cfg["cb"] = cb
+    pre = []
+    ev = case["event"]
+    if ev == "removal":
+        pre += ["remove_last", "steps:1"]
+    elif ev == "sync":
+        pre += ["steps:1", "sync"]
+    elif ev == "dt_change":
+        pre += ["dt", "steps:1"]
+    elif ev == "snapshot_write":
+        pre += ["save"]
+    elif ev == "rescale":
+        pre += ["blowup_var", "steps:1"]
+    elif ev == "merge":
+        pre += ["until_merge"]
+    elif ev == "rejected":
+        cfg["dt0"] = 3.0
+        cfg["save_after"] = max(1, min(cfg["save_after"], 1))
+    pre += {"none": [], "mass": ["mass"], "dt": ["dt"], "recalc_flag": ["recalc_flag"], "radii": ["radii"], "sync": ["sync"],
+            "remove_add": ["remove_last", "add"]}[case["edit"]]
+    if pre:
+        cfg["pre"] = pre
+    post = {"none": [], "add": ["add"], "remove": ["remove_last"], "mass": ["mass"], "dt": ["dt"], "sync": ["sync"],
+            "switch_reset": ["switch:leapfrog"]}[case["post"]]
+    if post:
+        cfg["post"] = post
+    return cfg, case["path"], 6, case["kind"]
+
+
+def dimension_first(cases, kind_of=lambda cs: cs[3] if len(cs) > 3 else "one"):
+    """reorder: a minimal set of cases that touches every dimension tag first (so that a wall-clock budget that cuts
+    the tail of the list on a loaded machine cannot leave an applicable dimension at zero), then the rest in order"""
+    seen, first, rest = set(), [], []
+    for cs in cases:
+        tags = set(case_dims(cs[0], cs[1], kind_of(cs)))
+        if tags - seen:
+            seen |= tags
+            first.append(cs)
+        else:
+            rest.append(cs)
+    return first + rest
